@@ -232,7 +232,9 @@ def c09 (h : H) : List String :=
       match os.find? (fun o => o.nonce = n) with
       | none => some "C09:cancelled-without-cause"
       | some o =>
-        if !isCallKind o.kind then some ("C09:cancelled-without-cause:" ++ kindName o.kind)
+        if !isCallKind o.kind then
+          (if h.any (fun e => match e with | .inj ep' "negcancel" => ep' == ep | _ => false) then none
+           else some ("C09:cancelled-without-cause:" ++ kindName o.kind))
         else
           match reqFrame h o.ep n with
           | none => some "C09:cancelled-without-cause:call"
@@ -353,7 +355,10 @@ def c13 (h : H) : List String :=
 /-! ### C20 — one record per RPC, under its tag, with its size -/
 
 /-- protocol prefix of a scenario method (`lecho` belongs to the protocol registered while running) -/
-def fullMeth (m : String) : String := if m == "lecho" then "late." ++ m else "p." ++ m
+def fullMeth (m : String) : String :=
+  if m == "lecho" then "late." ++ m
+  else if m == "big" then "p." ++ String.ofList (List.replicate 300 'm')
+  else "p." ++ m
 
 def typeName (k : Kind) (ctype : Int) : String :=
   match k with
@@ -398,8 +403,11 @@ def c20 (h : H) : List String :=
         let nf := match endOf h o.c with | some (_, .notfound, _) => true | _ => false
         if decide (o.ep + ep = 1) && o.meth == "lecho" && nf then some "Call late.lecho" else none)
     -- an RPC whose argument cannot be encoded is never sent: whether it leaves a record is not specified
-    let unsent := (os.filter fun o => o.ep = ep && h.any fun e => match e with | .badarg c => c == o.c | _ => false).map
-      fun o => typeName o.kind o.ctype ++ " " ++ fullMeth o.meth
+    let unsent := ((os.filter fun o => o.ep = ep && h.any fun e => match e with | .badarg c => c == o.c | _ => false).map
+      fun o => typeName o.kind o.ctype ++ " " ++ fullMeth o.meth) ++
+      -- a call refused for its size is not sent either, nor is the cancellation that names its (oversized) method
+      ((os.filter fun o => o.ep = ep && o.meth == "big").flatMap fun o =>
+        [typeName o.kind o.ctype ++ " " ++ fullMeth o.meth, "Cancel " ++ fullMeth o.meth])
     let expected := client ++ cancels ++ served ++ injected
     let tags := (expected ++ recs.map (·.1)).eraseDups
     ((tags.filter fun t => !unsent.contains t).filterMap fun t =>
@@ -489,7 +497,7 @@ def c07 (h : H) : List String :=
   -- not-found calls / notifications, stray responses and stray cancellations leave the traffic before and
   -- after them unaffected: with nothing but such frames injected, every ordinary monitor still holds
   (let benign := h.any fun e => match e with
-      | .inj _ k => k == "strayresp" || k == "straycancel" || k == "nfcall" || k == "nfnotify" || k == "nflate"
+      | .inj _ k => k == "strayresp" || k == "straycancel" || k == "nfcall" || k == "nfnotify" || k == "nflate" || k == "negcancel"
       | _ => false
    if benign ∧ undisturbed h then
      (if (c10 h).isEmpty then [] else ["C07:traffic-blocked-after-notfound-or-stray-frame"]) ++
